@@ -14,13 +14,14 @@ package prompting
 //     (the prompter stays available until it is unregistered);
 //  4. after unregistration: calls must fail without invoking, and the
 //     identifier is free to be registered again;
-//  5. a randomized race of callers against unregistration (2000 rounds).
+//  5. a randomized race of callers against unregistration (600 rounds of four looping callers).
 // Invocations are logged with an in-flight counter and an "unregistration
 // returned" flag; panics of registry functions are caught and reported.
 
 import (
 	"errors"
 	"fmt"
+	"runtime"
 	"strings"
 	"sync"
 	"sync/atomic"
@@ -213,7 +214,9 @@ func c32FailThenUse(m c32Method) string {
 	return ""
 }
 
-// scenario 5: callers racing with unregistration
+// scenario 5: callers racing with unregistration. Four goroutines call
+// Message/Prompt in a loop (until the registry turns them away) while a fifth
+// unregisters the prompter at a varying moment.
 func c32Race(rounds int) string {
 	for round := 0; round < rounds; round++ {
 		id := c32ID()
@@ -235,7 +238,11 @@ func c32Race(rounds int) string {
 					}
 				}()
 				<-start
-				m.call(id)
+				for k := 0; k < 100000; k++ {
+					if m.call(id) != nil {
+						return
+					}
+				}
 			}()
 		}
 		wg.Add(1)
@@ -247,6 +254,9 @@ func c32Race(rounds int) string {
 				}
 			}()
 			<-start
+			for spin := 0; spin < (round%50)*40; spin++ {
+				runtime.Gosched()
+			}
 			UnregisterPrompter(id)
 			atomic.StoreInt32(&p.unregistered, 1)
 		}()
@@ -285,9 +295,9 @@ func TestReplayPrompterRegistry(t *testing.T) {
 			return
 		}
 	}
-	if bad := c32Race(2000); bad != "" {
+	if bad := c32Race(600); bad != "" {
 		fmt.Printf("REPLAY-CONFIRMED: %s\n", bad)
 		return
 	}
-	fmt.Printf("REPLAY-NOT-REPRODUCED (blocking-prompter schedules, failing prompter, re-registration, 2000 race rounds)\n")
+	fmt.Printf("REPLAY-NOT-REPRODUCED (blocking-prompter schedules, failing prompter, re-registration, 600 race rounds)\n")
 }
